@@ -38,7 +38,7 @@ REQUIRED_MONITORS = ["minimal_bounding_sphere", "minimal_bounding_circle", "mini
                      "circumsphere", "circumcircle", "insphere", "incircle", "curved-balls", "radius-getters"]
 REQUIRED_CLASSES = ["exists:circumsphere", "none:circumsphere", "exists:insphere", "none:insphere", "exists:circumcircle",
                     "none:circumcircle", "exists:incircle", "none:incircle", "polygon:cw", "polygon:nonconvex", "polyhedron:nonconvex",
-                    "history:aged-object"]
+                    "history:aged-object", "curved:extreme-units"]
 TOL = 1e-6
 
 
@@ -561,6 +561,10 @@ def run_case(i, rng, rec, tier, state):
     k = {"Circle": 1, "Ellipse": 2, "Sphere": 1, "Ellipsoid": 3}[which]
     ax, _ = gen.axes_case(rng, k)
     cen, _ = gen.center_case(rng, max(ax), dims=2 if k <= 2 and which in ("Circle", "Ellipse") else 3)
+    u = gen.unit_factor(rng)
+    if u != 1.0:
+        ax, cen = [a * u for a in ax], cen * u
+        rec.cls("curved:extreme-units")
     s = getattr(cs, which)(*ax, cen)
     suffix = "circle" if which in ("Circle", "Ellipse") else "sphere"
     rec.cls("curved:" + which)
